@@ -12,7 +12,8 @@ EXPLANATION = (
     "Lean model of _prune and the three helpers on id-carrying graphs. Theorems: after pruning no reference to the "
     "removed node survives in positional or keyword arguments at any nesting depth, every occurrence is replaced by "
     "the bypass input (or cut to None for selective pruning), exactly that node disappears, surviving ids form a "
-    "sublist of the input's. Check: tracked graphs of generated modules (list-taking ops, keyword tensors, integer "
+    "sublist of the input's; a bypass of a single-input node preserves reachability among survivors exactly (no path "
+    "lost, none created), a cut creates none; every helper returns a well-formed graph for every well-formed input. Check: tracked graphs of generated modules (list-taking ops, keyword tensors, integer "
     "intermediates, views/negations, multi-output) from the tracking backend run directly and through Dynamo; the "
     "returned graph vs the model (exact) and vs an independent oracle (survivors in order, bypass wiring, lint, input "
     "graph unchanged)."
